@@ -780,7 +780,9 @@ def krylov(model, sfield, efield, var):
         pre = "\n"
     pre += "   > "
     if i < 0:
-        if var.exit_message == '':
+        # Keep the message if `_terminate` gave the reason (DIVERGED,
+        # STAGNATED); a 'CONVERGED' of the pre-conditioner is none.
+        if var.exit_message in ['', 'CONVERGED']:
             var.exit_message = f"Error in {var.sslsolver} ({i})"
         pre = "\n* ERROR   :: "
     elif i > 0:
